@@ -2,7 +2,7 @@ SPECIFICATION Spec
 CONSTANTS N = 13
           Limits = {4, 6, 10}
           Modes = {"none", "adjusted", "original", "dfdt"}
-          Guard = TRUE
+          Guard = "visited"
 INVARIANT InteriorResult
 INVARIANT LRange
 PROPERTY Terminates
